@@ -279,6 +279,7 @@ func runC17(s *core.Sim, tier string) RunInfo {
 		// re-initialised from whichever append came next) or not, afterwards nothing deleted is
 		// readable, everything appended is stored, and Tail..Head is a gap-free run of the chain
 		s.Probe("whole-chain-delete-raced-appends")
+		var endHead, endTail uint64
 		w.do("check-after-whole-chain-race", func() {
 			why := fmt.Sprintf("after a whole-chain deletion raced with appends; %s; %v", w.cfg(), plan)
 			for h := first; h < delTo; h++ {
@@ -317,7 +318,22 @@ func runC17(s *core.Sim, tier string) RunInfo {
 			if w.St.Height() != hd.Height() {
 				s.Violate("height-mismatch", map[string]string{"race": "whole-chain"}, "[%s] Height()=%d Head()=%d", why, w.St.Height(), hd.Height())
 			}
+			endHead, endTail = hd.Height(), tl.Height()
 		})
+		if !s.Failed() && endHead != 0 && s.Tape.Coin("restart-at-the-end", 1, 2) {
+			// what the race left in memory is also what it left in the datastore
+			if err := w.Restart(); err != nil {
+				s.Violate("start-error", map[string]string{"after": "concurrent-use"}, "restart after concurrent use: %v", err)
+				return info()
+			}
+			w.do("check-after-restart", func() {
+				hd, herr := w.St.Head(ctx)
+				tl, terr := w.St.Tail(ctx)
+				if herr != nil || terr != nil || hd.Height() != endHead || tl.Height() != endTail {
+					s.Violate("ends-mismatch", map[string]string{"kind": "restart", "race": "whole-chain"}, "after a whole-chain deletion raced with appends the store had Tail=%d Head=%d; after a clean restart Head=%v,%v Tail=%v,%v [%s; %v]", endTail, endHead, hd, herr, tl, terr, w.cfg(), plan)
+				}
+			})
+		}
 		return info()
 	}
 	w.checkStore(m, "after all writers finished")
